@@ -1667,6 +1667,27 @@ pub fn generate(seed: u64) -> C11Scenario {
             maybe_bad.push(path);
         }
     }
+    if matches!(backend, Backend::RealFs | Backend::RealLib)
+        && !project.input_is_file
+        && opts.output.is_some()
+        && rk.chance(1, 4)
+    {
+        // a symbolic link to a Lua file that lives outside the input: it is a source like
+        // any other (the walk follows links)
+        let input_dir = gen::normalize(&project.input);
+        let link = gen::join(&input_dir, "zz-linked.lua");
+        let ups = "../".repeat(input_dir.split('/').filter(|c| !c.is_empty()).count());
+        if !entries.iter().any(|e| e.path == link) {
+            entries.push(FsEntry {
+                path: "link-target.lua".to_owned(),
+                body: Body::Text("-- reached through a link\nmark(\"linked\")\nreturn { \"linked\" }\n".to_owned()),
+            });
+            entries.push(FsEntry {
+                path: link,
+                body: Body::Symlink(format!("{}link-target.lua", ups)),
+            });
+        }
+    }
     if matches!(backend, Backend::RealFs | Backend::RealLib) && !project.input_is_file && rk.chance(1, 3) {
         // entries whose metadata cannot be read (dangling symbolic links) next to the
         // sources: they are skipped with a warning; no sibling may get lost with them
